@@ -224,8 +224,10 @@ def run(tier):
                     add(ep, amplify(r["bytes"], r["nests"], amp), r["dict"], dict(base, amp=amp, nest=nest, neutral=False))
     ntlc = len(cases)
 
-    # budget: of the inputs the classifier predicts to end in an already listed, expensive signature, execute a few per signature
-    cap = {"stackoverflow": 30 if quick else 400, "allocabort": 6 if quick else 40, "hang": 1 if quick else 3}
+    # budget: of the inputs the classifier predicts to end in an already listed signature that costs wall-clock time (a hang
+    # costs its time limit four times over, memory exhaustion seconds), execute a few per signature; a stack overflow or a
+    # failed allocation only costs a worker restart, those inputs are all executed
+    cap = {"stackoverflow": 10 ** 9, "allocabort": 4 if quick else 30, "hang": 1 if quick else 3}
     used = collections.Counter()
     order = list(range(ntlc))
     rng.shuffle(order)
